@@ -229,3 +229,20 @@ def write_gro(path, rows, box, title="pvmon input"):
     out.append("%10.5f%10.5f%10.5f" % tuple(box))
     with open(path, "w") as fh:
         fh.write("\n".join(out) + "\n")
+
+
+def write_pdb(path, rows, box, title="pvmon input"):
+    """own PDB writer; rows carry 'ter' = True when a TER record follows the atom (end of a molecule);
+    coordinates in nm with 3 decimals are exact in the 3-decimal Angstrom columns"""
+    out = ["TITLE     " + title,
+           "CRYST1%9.3f%9.3f%9.3f%7.2f%7.2f%7.2f P 1           1" % (box[0] * 10, box[1] * 10, box[2] * 10, 90, 90, 90)]
+    for i, r in enumerate(rows, 1):
+        name = r["name"]
+        out.append("ATOM  %5d %-4s %-4s%1s%4d    %8.3f%8.3f%8.3f%6.2f%6.2f" %
+                   (i % 100000, name, r["resname"][:4], "A", r["resid"] % 10000,
+                    r["xyz"][0] * 10, r["xyz"][1] * 10, r["xyz"][2] * 10, 1.0, 0.0))
+        if r.get("ter"):
+            out.append("TER")
+    out.append("END")
+    with open(path, "w") as fh:
+        fh.write("\n".join(out) + "\n")
